@@ -167,8 +167,7 @@ func partC(c *core.Ctx) {
 	if !c.Quick() {
 		bound = 3
 	}
-	driveC(c, []string{"", "pre"}, bound)
-	c.Set("write_concurrent_deviation_bound", bound)
+	c.Set("write_concurrent_deviation_bound", driveC(c, []string{"", "pre"}, bound))
 	c.Set("write_concurrent_distinct_outcomes", c.DistinctCount("write_concurrent_outcomes"))
 }
 
@@ -182,14 +181,14 @@ func partE(c *core.Ctx) {
 	for _, set := range acceptSets {
 		scenarios = append(scenarios, "accept:"+set)
 	}
-	driveC(c, scenarios, bound)
-	c.Set("accept_concurrent_preemption_bound", bound)
+	c.Set("accept_concurrent_preemption_bound_completed", driveC(c, scenarios, bound))
 	c.Set("accept_concurrent_distinct_outcomes", c.DistinctCount("accept_concurrent_outcomes"))
 }
 
 // driveC: bound-major, so that every scenario is finished at bound b before any starts bound b+1.
-func driveC(c *core.Ctx, scenarios []string, bound int) {
+func driveC(c *core.Ctx, scenarios []string, bound int) (completed int) {
 	n := core.NumWorkers()
+	completed = -1
 	for b := 0; b <= bound && !c.Expired(); b++ {
 		for _, pre := range scenarios {
 			shards := n
@@ -201,7 +200,11 @@ func driveC(c *core.Ctx, scenarios []string, bound int) {
 			}, 20*time.Minute)
 			c.CheckShards(outs)
 		}
+		if !c.Expired() {
+			completed = b
+		}
 	}
+	return completed
 }
 
 func replayC(c *core.Ctx, choices []int, pre bool, scName string) {
